@@ -134,8 +134,8 @@ class Matcher:
         if t == 'bol':
             if i == 0:
                 ok = not self.notbol
-            else:
-                ok = s[i - 1] == 10
+            else:       # after an embedded newline, but not after the line's own terminator
+                ok = s[i - 1] == 10 and i < n
             return k(i, caps) if ok else None
         if t == 'eol':
             if i == n:
